@@ -218,6 +218,16 @@ pub assume_specification<F: FnOnce() -> Ordering> [ Ordering::then_with ] (a: Or
 pub assume_specification<T, U, F: FnOnce(T) -> U> [ Option::<T>::map_or ] (o: Option<T>, d: U, f: F) -> (r: U)
     requires o matches Some(x) ==> call_requires(f, (x,)),
     ensures match o { Some(x) => call_ensures(f, (x,), r), None => r == d };
+pub assume_specification<T, F: FnOnce(T) -> bool> [ Option::<T>::is_some_and ] (o: Option<T>, f: F) -> (r: bool)
+    requires o matches Some(x) ==> call_requires(f, (x,)),
+    ensures match o { Some(x) => call_ensures(f, (x,), r), None => !r };
+pub assume_specification<T> [ Option::<T>::or ] (o: Option<T>, b: Option<T>) -> (r: Option<T>)
+    ensures r == (if o is Some { o } else { b });
+pub assume_specification<T, E, F: FnOnce(E) -> T> [ Result::<T, E>::unwrap_or_else ] (o: Result<T, E>, f: F) -> (r: T)
+    requires o matches Err(e) ==> call_requires(f, (e,)),
+    ensures match o { Ok(x) => r == x, Err(e) => call_ensures(f, (e,), r) };
+pub assume_specification<T: core::ops::Deref> [ Option::<T>::as_deref ] (o: &Option<T>) -> (r: Option<&<T as core::ops::Deref>::Target>)
+    ensures r is Some <==> o is Some, o matches Some(x) ==> call_ensures(<T as core::ops::Deref>::deref, (&x,), r->0);
 pub assume_specification<T, P: FnOnce(&T) -> bool> [ Option::<T>::filter ] (o: Option<T>, p: P) -> (r: Option<T>)
     requires o matches Some(x) ==> call_requires(p, (&x,)),
     ensures match o { Some(x) => (exists |b: bool| call_ensures(p, (&x,), b) && r == (if b { Some(x) } else { None::<T> })), None => r is None };
